@@ -56,6 +56,32 @@ pub struct Scn {
     /// digital input, jumper 1) instead of the default one
     #[serde(default)]
     pub init: Option<[u8; 6]>,
+    /// third scenario kind: complete value plane of the registers a CPU reset must clear and that
+    /// have no getter (see [`Plane`])
+    #[serde(default)]
+    pub plane: Option<Plane>,
+}
+
+/// Register-value plane: on a machine with a seeded remainder (output registers, input registers,
+/// RAM bytes, key press, write order) the byte `fa` is written to 0xFA (UART data), and then EVERY
+/// pair (fb, f9) of bytes is written to 0xFB (UART control) and 0xF9 (interrupt mask): 65 536
+/// machines, each hit with cpu_reset and master_reset and compared (getters + full equality with
+/// the constructed machine). The 256 values of `fa` are spread over the scenarios of a run, so one
+/// quick run covers all 2^24 value triples of the three registers.
+#[derive(Clone, Debug, Serialize, Deserialize)]
+pub struct Plane {
+    pub fa: u8,
+    pub out: [u8; 2],
+    pub inputs: [u8; 4],
+    pub ram: Vec<(u8, u8)>,
+    /// key press after the writes (pending or dropped, depending on bit 0 of f9)
+    pub key: bool,
+    /// 0xF9 before 0xFB instead of after
+    pub mask_first: bool,
+    /// write 0xFA last instead of first
+    pub fa_last: bool,
+    /// restrict the sweep to one (fb, f9) pair (set by the shrinker)
+    pub only: Option<(u8, u8)>,
 }
 
 fn v(oracle: &str, at: (usize, u32), d: String) -> Violation {
@@ -460,6 +486,9 @@ fn run(scn: &Scn, ctx: &mut Ctx) -> Result<(), Violation> {
         ctx.cov.evaluations += seq.events.len() as u64;
         return Ok(());
     }
+    if let Some(p) = &scn.plane {
+        return run_plane(p, ctx);
+    }
     let mut m = match scn.init {
         Some(c) => {
             ctx.cov.probe("machine-created-from-a-non-default-configuration");
@@ -539,6 +568,82 @@ fn run(scn: &Scn, ctx: &mut Ctx) -> Result<(), Violation> {
     Ok(())
 }
 
+fn run_plane(p: &Plane, ctx: &mut Ctx) -> Result<(), Violation> {
+    let mut base = Machine::new(MachineConfig::default());
+    for (a, b) in &p.ram {
+        base.raw_mut().bus_mut().write(*a % 0xF0, *b);
+    }
+    base.raw_mut().bus_mut().write(0xFE, p.out[0]);
+    base.raw_mut().bus_mut().write(0xFF, p.out[1]);
+    base.set_input_fc(p.inputs[0]);
+    base.set_input_fd(p.inputs[1]);
+    base.set_input_fe(p.inputs[2]);
+    base.set_input_ff(p.inputs[3]);
+    if !p.fa_last {
+        base.raw_mut().bus_mut().write(0xFA, p.fa);
+    }
+    let known = Known { uart: Some(p.fa), ..Known::default() };
+    // the expectation depends on the swept bytes only through the interrupt status register
+    let mut expected: Vec<(u8, bool, Vec<Machine>)> = vec![];
+    let (fbs, f9s): (Vec<u8>, Vec<u8>) = match p.only {
+        Some((fb, f9)) => (vec![fb], vec![f9]),
+        None => ((0..=255).collect(), (0..=255).collect()),
+    };
+    for &fb in &fbs {
+        for &f9 in &f9s {
+            let mut pre = base.clone();
+            {
+                let bus = pre.raw_mut().bus_mut();
+                if p.mask_first {
+                    bus.write(0xF9, f9);
+                    bus.write(0xFB, fb);
+                } else {
+                    bus.write(0xFB, fb);
+                    bus.write(0xF9, f9);
+                }
+                if p.fa_last {
+                    bus.write(0xFA, p.fa);
+                }
+            }
+            if p.key {
+                pre.trigger_key_interrupt();
+            }
+            let misr = pre.bus().read(0xF9);
+            for master in [false, true] {
+                let what = if master { "master_reset" } else { "cpu_reset" };
+                let mut c = pre.clone();
+                if master {
+                    c.master_reset();
+                } else {
+                    c.cpu_reset();
+                }
+                ctx.cov.evaluations += 1;
+                let fail = |vi: Violation| Violation::new("C07", &vi.oracle, format!("plane fa=0x{:02X} fb=0x{:02X} f9=0x{:02X} (bytes written to 0xFA / 0xFB / 0xF9 before the reset) {}", p.fa, fb, f9, vi.detail));
+                check_cpu_side(&c, &pre, (0, u32::MAX), what).map_err(fail)?;
+                if !master && (0..0xF0u8).any(|a| c.bus().read(a) != pre.bus().read(a)) {
+                    return Err(fail(v("reset-untouched", (0, u32::MAX), format!("{}: RAM changed", what))));
+                }
+                if !master && (0xFCu8..=0xFF).any(|a| c.bus().read(a) != pre.bus().read(a)) {
+                    return Err(fail(v("reset-untouched", (0, u32::MAX), format!("{}: an input register changed", what))));
+                }
+                if !expected.iter().any(|e| e.0 == misr && e.1 == master) {
+                    let cands: Vec<Machine> = candidates(&known, master).iter().filter_map(|k| construct(&pre, master, k)).collect();
+                    expected.push((misr, master, cands));
+                }
+                let cands = &expected.iter().find(|e| e.0 == misr && e.1 == master).unwrap().2;
+                if !cands.is_empty() && !cands.iter().any(|e| *e == c) {
+                    return Err(fail(v("reset-hidden-state", (0, u32::MAX), format!("{}: a private field differs from a machine constructed through public setters (interrupt mask, UART control and data registers have no getter)", what))));
+                }
+            }
+        }
+    }
+    ctx.cov.probe("register-plane-swept");
+    ctx.cov.fault_n("RST-CPU", (fbs.len() * f9s.len()) as u64);
+    ctx.cov.fault_n("RST-MASTER", (fbs.len() * f9s.len()) as u64);
+    ctx.cov.distinct(mix(0x9A7E, p.fa as u64));
+    Ok(())
+}
+
 /// program that writes known values to the ports (board, MICR, outputs) and then idles
 fn port_writer(rng: &mut Rng) -> Vec<u8> {
     let mut p = Prog::new();
@@ -613,6 +718,20 @@ impl Check for C07 {
         }
     }
     fn generate(&self, rng: &mut Rng, _tier: Tier, idx: u64) -> Scn {
+        if idx % 40 == 6 {
+            // register-value plane; fa walks through all 256 values within 10 240 runs
+            let plane = Plane {
+                fa: ((idx / 40) % 256) as u8,
+                out: [rng.u8(), rng.u8()],
+                inputs: [rng.u8(), rng.u8(), rng.u8(), rng.u8()],
+                ram: (0..rng.below(6)).map(|_| (rng.below(0xF0) as u8, rng.u8())).collect(),
+                key: rng.bool(),
+                mask_first: rng.bool(),
+                fa_last: rng.bool(),
+                only: None,
+            };
+            return Scn { ops: vec![], follow: Image { bytes: vec![], stack: 16, limit: None, keep_limit: false }, follow_inputs: [0; 4], only: None, lockstep: None, init: None, plane: Some(plane) };
+        }
         if idx % 4 == 3 {
             // lock-step scenario with resets / reloads / key presses on arbitrary edges
             let mut setup = gen::hazard_setup(rng, 0);
@@ -640,6 +759,7 @@ impl Check for C07 {
                 only: None,
                 lockstep: Some(crate::engine::SeqScn { setup, events, max_edges }),
                 init: None,
+                plane: None,
             };
         }
         let n = 3 + rng.usize(40);
@@ -688,12 +808,32 @@ impl Check for C07 {
                 ops.insert(at + k, o.clone());
             }
         }
-        Scn { ops, follow: follow_up(rng), follow_inputs: [rng.u8(), rng.u8(), rng.u8(), rng.u8()], only: None, lockstep: None, init: if rng.chance(1, 3) { Some([rng.u8(), rng.u8(), rng.u8(), rng.u8(), rng.u8(), rng.u8()]) } else { None } }
+        Scn { ops, follow: follow_up(rng), follow_inputs: [rng.u8(), rng.u8(), rng.u8(), rng.u8()], only: None, lockstep: None, init: if rng.chance(1, 3) { Some([rng.u8(), rng.u8(), rng.u8(), rng.u8(), rng.u8(), rng.u8()]) } else { None }, plane: None }
     }
     fn execute(&self, scn: &Scn, ctx: &mut Ctx) -> Result<(), Violation> {
         run(scn, ctx)
     }
     fn shrink(&self, scn: &Scn, v: &Violation) -> Vec<Scn> {
+        if let Some(p) = &scn.plane {
+            let byte = |key: &str| v.detail.find(key).and_then(|i| u8::from_str_radix(v.detail.get(i + key.len()..i + key.len() + 2)?, 16).ok());
+            let mut out = vec![];
+            if let (None, Some(fb), Some(f9)) = (p.only, byte("fb=0x"), byte("f9=0x")) {
+                out.push(Scn { plane: Some(Plane { only: Some((fb, f9)), ..p.clone() }), ..scn.clone() });
+            }
+            if p.only.is_some() {
+                for k in 0..p.ram.len() {
+                    let mut q = p.clone();
+                    q.ram.remove(k);
+                    out.push(Scn { plane: Some(q), ..scn.clone() });
+                }
+                for q in [Plane { key: false, ..p.clone() }, Plane { out: [0; 2], ..p.clone() }, Plane { inputs: [0; 4], ..p.clone() }, Plane { mask_first: false, ..p.clone() }, Plane { fa_last: false, ..p.clone() }] {
+                    if format!("{:?}", q) != format!("{:?}", p) {
+                        out.push(Scn { plane: Some(q), ..scn.clone() });
+                    }
+                }
+            }
+            return out;
+        }
         if let Some(seq) = &scn.lockstep {
             return crate::engine::shrink_seq(seq, v).into_iter().map(|s| Scn { lockstep: Some(s), ..scn.clone() }).collect();
         }
@@ -730,7 +870,7 @@ impl Check for C07 {
         out
     }
     fn rule(&self) -> String {
-        "Histories of 3-43 operations (program loads incl. NOSET stack sizes, clock bursts in Real and Assembly mode, key presses, CONTINUE, input-register / jumper / UIO / voltage / digital-input changes, direct writes to every port incl. UART and timer registers, RAM bit flips, resets, step-mode switches; loaded programs write the board ports, MICR and output registers). After every operation and at every tick of every Real-mode burst the machine is cloned three times and hit with cpu_reset, master_reset and load(follow-up program). evaluations = reset faults injected; distinct = distinct (opcode class in flight, at-boundary?, state, key flip-flop set?, tick inside the burst) reset points.".into()
+        "Histories of 3-43 operations (program loads incl. NOSET stack sizes, clock bursts in Real and Assembly mode, key presses, CONTINUE, input-register / jumper / UIO / voltage / digital-input changes, direct writes to every port incl. UART and timer registers, RAM bit flips, resets, step-mode switches; loaded programs write the board ports, MICR and output registers). After every operation and at every tick of every Real-mode burst the machine is cloned three times and hit with cpu_reset, master_reset and load(follow-up program). One run in forty is a register-value plane instead: byte fa = (run index / 40) mod 256 written to 0xFA on a seeded machine, then all 65 536 pairs written to 0xFB / 0xF9, each followed by cpu_reset and master_reset on a clone (same oracles). evaluations = reset faults injected; distinct = distinct (opcode class in flight, at-boundary?, state, key flip-flop set?, tick inside the burst) reset points.".into()
     }
     fn assumptions(&self) -> Vec<String> {
         vec![
@@ -749,9 +889,9 @@ impl Check for C07 {
         })
     }
     fn must_fire(&self, _tier: Tier) -> Vec<String> {
-        ["RST-CPU", "RST-MASTER", "RELOAD", "lockstep:first-boundary-after-reset", "reset-mid-instruction", "reset-with-key-flip-flop-set", "reset-of-halted-machine", "board-outputs-non-default-before-reset", "constructed-machine-equality"].iter().map(|s| s.to_string()).collect()
+        ["RST-CPU", "RST-MASTER", "RELOAD", "lockstep:first-boundary-after-reset", "reset-mid-instruction", "reset-with-key-flip-flop-set", "reset-of-halted-machine", "board-outputs-non-default-before-reset", "constructed-machine-equality", "register-plane-swept"].iter().map(|s| s.to_string()).collect()
     }
     fn exhaustive_dims(&self, _tier: Tier) -> Vec<String> {
-        vec!["reset point: every prefix of each history, every tick of each Real-mode burst, x 3 reset kinds".into()]
+        vec!["reset point: every prefix of each history, every tick of each Real-mode burst, x 3 reset kinds".into(), "register-value plane: all 256 x 256 x 256 bytes in UART data / UART control / interrupt mask registers before cpu_reset and master_reset (256 planes of 65 536 pairs, spread over the first 10 240 runs)".into()]
     }
 }
